@@ -223,6 +223,33 @@ def _check_model(net, bounds, flip, scale, stats, rich=False, origin=None):
                     if frames() != state0:
                         bad(kind, "rendering modified the summary's public frames", f"{name}: {sorted(k for k, v in frames().items() if v != state0.get(k))}")
                         return text
+                if walk and kind in ("model", "metabolite") and 0 in first and 1 in first:
+                    # a summary describes the solution and the model it was made from: editing the model afterwards (a
+                    # reaction renamed, a coefficient changed - both taken back) does not change what it renders
+                    try:
+                        rid0 = str(s.to_frame().index[0][-1] if isinstance(s.to_frame().index[0], tuple) else s.to_frame().index[0])
+                    except Exception:
+                        rid0 = None
+                    if rid0 is not None and rid0 in model.reactions:
+                        r0 = model.reactions.get_by_id(rid0)
+                        met0 = next(iter(r0.metabolites))
+                        r0.id = rid0 + "_renamed"
+                        r0.add_metabolites({met0: 1.5})
+                        stats["renderings_after_model_edit"] = stats.get("renderings_after_model_edit", 0) + 1
+                        try:
+                            for k in (0, 1):
+                                name, fn = RENDERERS[k]
+                                try:
+                                    val = fn(s)
+                                except Exception as exc:
+                                    bad(kind, "rendering after an edit of the model raised " + type(exc).__name__, f"{name}: {exc!r}")
+                                    break
+                                if val != first[k]:
+                                    bad(kind, "rendering changed after an edit of the model", name)
+                                    break
+                        finally:
+                            r0.add_metabolites({met0: -1.5})
+                            r0.id = rid0
                 return text
 
             stats["evaluations"] = stats.get("evaluations", 0) + 1
